@@ -15,9 +15,14 @@ Answers
   jsx_render <jnode> <indent> <eol>       → `ok <str>` | `err <kind>`       (_render_react_js)
   jsx_attr <jval> / jsx_style <jval>      → `ok <str>` | `err <kind>`       (_serialize_attr / _serialize_style_attr)
   jsx_libfiles                            → `<name> <version> <src> <T|F exists> …` for react, react-dom
+  jsx_alias <jnode>                       → the answer of jsx_tagify followed by `<T|F>`: the result shares no mutable object
+                                             with the component (the implementation builds the tree with ONE object for
+                                             structurally equal mutable sub-terms: aliasing)
+  jsx_num <txt> <pynum>                   → `ok <str>` | `err <kind>`       the text written for the number whose str() is <txt>
+        pynum := i <int> | f <neg T|F> <mant> <exp> | inf <neg T|F> | nan      (the number, exactly; used by `holds`)
 -/
 import HtmlVerif.Ops.Base
-import HtmlVerif.Model.Jsx
+import HtmlVerif.Spec.Jsx
 
 namespace HtmlVerif.Ops
 open HtmlVerif HtmlVerif.Wire
@@ -192,16 +197,37 @@ def libRow (pkg src : Str) : String :=
   | some v => encStr pkg ++ " " ++ encStr v ++ " " ++ encStr src ++ " T"
   | none => encStr pkg ++ " missing"
 
+/-- the Python number on the wire, exactly -/
+def pyNum : P PyNum := do
+  let t ← next
+  match t with
+  | "i" => .int <$> int
+  | "f" => do let n ← bool; let m ← nat; let e ← int; pure (.float n m e)
+  | "inf" => .inf <$> bool
+  | "nan" => pure .nan
+  | _ => throw s!"bad pynum {t}"
+
+/-- four conversions of one component (tagify, str, tagify, tagify) -/
+def tagifyAnswer (x : JNode) : String :=
+  let o1 := x.tagify .demanded jsxVersions
+  let o4 := o1.after.tagifyN .demanded jsxVersions 2
+  let again := match o1.result, o4.result with
+    | .ok a, .ok b => a.beq b
+    | .error a, .error b => a == b
+    | _, _ => false
+  encTagifyRes o1.result ++ " after " ++ encJNode o1.after ++ " " ++ encJNode o4.after ++ " T " ++ encBool again
+
 def jsxOps : OpTable
   | "jsx_tagify" => some do
     let x ← jnode
-    let o1 := x.tagify .demanded jsxVersions
-    let o4 := o1.after.tagifyN .demanded jsxVersions 2
-    let again := match o1.result, o4.result with
-      | .ok a, .ok b => a.beq b
-      | .error a, .error b => a == b
-      | _, _ => false
-    pure (encTagifyRes o1.result ++ " after " ++ encJNode o1.after ++ " " ++ encJNode o4.after ++ " T " ++ encBool again)
+    pure (tagifyAnswer x)
+  | "jsx_alias" => some do
+    -- purity makes sharing invisible: the same answer as for the tree, and nothing of the component is in the result
+    let x ← jnode
+    pure (tagifyAnswer x ++ " T")
+  | "jsx_num" => some do
+    let t ← str; let _ ← pyNum
+    pure (encExcept encZ (JVal.num t).serialize)
   | "jsx_init" => some do
     let name ← str; let up ← str; let allowed ← allowedArg; let kw ← jkwargs; let ks ← jnodes
     match jsxInit (fun _ => up) name allowed kw ks with
